@@ -74,20 +74,6 @@ func (m *MessageCopyFromGenerator) GenerateFields(g *j.Group) {
 		g.Add(j.Id("obj." + f.OneOfName).Op("=").Nil())
 	}
 
-	// Reset nullable embedded messages in advance: their fields are only assigned when the matching
-	// attribute has a value, so a target which already holds such a message would keep it otherwise
-	embedded := make(map[string]struct{})
-	for _, f := range m.Fields {
-		if !f.ParentIsOptionalEmbed {
-			continue
-		}
-		if _, ok := embedded[f.ParentIsOptionalEmbedFieldName]; ok {
-			continue
-		}
-		embedded[f.ParentIsOptionalEmbedFieldName] = struct{}{}
-		g.Add(j.Id("obj." + f.ParentIsOptionalEmbedFieldName).Op("=").Nil())
-	}
-
 	for _, f := range m.Fields {
 		g.Add(NewFieldCopyFromGenerator(f, m.i).Generate())
 	}
@@ -129,11 +115,12 @@ func (f *FieldCopyFromGenerator) errAttrConversionFailure(path string, typ strin
 // nextField reads current field value from Terraform object and asserts it's type against expected
 func (f *FieldCopyFromGenerator) nextField(g func(g *j.Group)) *j.Statement {
 	if f.ParentIsOptionalEmbed && f.Kind != PrimitiveKind {
-		// The field is promoted from a nullable embedded message, which was reset above and can not be
-		// written through while it is nil: create it as soon as the field has a value
+		// The field is promoted from a nullable embedded message and can not be written through while
+		// that message is nil: create it as soon as the field has a value. If the target already holds
+		// the message, the field is overwritten in any case.
 		body := g
 		g = func(g *j.Group) {
-			g.If(j.Id("!v.Null && !v.Unknown")).BlockFunc(func(g *j.Group) {
+			g.If(j.Id("(!v.Null && !v.Unknown) || obj." + f.ParentIsOptionalEmbedFieldName + " != nil")).BlockFunc(func(g *j.Group) {
 				g.If(j.Id("obj." + f.ParentIsOptionalEmbedFieldName).Op("==").Nil()).Block(
 					j.Id("obj." + f.ParentIsOptionalEmbedFieldName).Op("=").Id("&" + f.ParentIsOptionalEmbedFullType + "{}"),
 				)
@@ -217,7 +204,10 @@ func (f *FieldCopyFromGenerator) genPrimitive() *j.Statement {
 					j.Id("obj." + f.ParentIsOptionalEmbedFieldName).Op("=").Id("&" + f.ParentIsOptionalEmbedFullType + "{}"),
 				)
 				g.Id("obj." + f.Name).Op("=").Id("t")
-			})
+			}).Else().If(j.Id("obj." + f.ParentIsOptionalEmbedFieldName).Op("!=").Nil()).Block(
+				// The target already holds the embedded message: the field must not keep its old value
+				j.Id("obj." + f.Name).Op("=").Id("t"),
+			)
 			return
 		}
 
